@@ -134,7 +134,9 @@ begin
  H0: if HolderKind[self] = "invalidateAll" then
  ia_lock:      await ~lock; lock := TRUE;
  ia_pop:       while buf > 0 do buf := buf - 1; end while;
- ia_unlock:    lock := FALSE;
+ ia_unlock:    \* (wrong protocol "ia_mark": the holder erases a write's Required mark - "everything was replayed and discarded" - before it unlocks)
+               if "ia_mark" \in Drop /\ status = Required then status := Idle; end if;
+               lock := FALSE;
  ia_after:     if FixHolders /\ status = Required then call SDB(); end if;
      elsif HolderKind[self] = "order" then
  eo_lock:      await ~lock; lock := TRUE;
@@ -497,10 +499,14 @@ ia_pop(self) == /\ pc[self] = "ia_pop"
                                 myTask, resched, st, n, ds >>
 
 ia_unlock(self) == /\ pc[self] = "ia_unlock"
+                   /\ IF "ia_mark" \in Drop /\ status = Required
+                         THEN /\ status' = Idle
+                         ELSE /\ TRUE
+                              /\ UNCHANGED status
                    /\ lock' = FALSE
                    /\ pc' = [pc EXCEPT ![self] = "ia_after"]
-                   /\ UNCHANGED << status, buf, token, spawned, handoff, stack, 
-                                   myTask, resched, st, n, ds >>
+                   /\ UNCHANGED << buf, token, spawned, handoff, stack, myTask, 
+                                   resched, st, n, ds >>
 
 ia_after(self) == /\ pc[self] = "ia_after"
                   /\ IF FixHolders /\ status = Required
